@@ -77,7 +77,9 @@ pub fn decode(src: &mut Source) -> Case {
     let metrics = (0..nm)
         .map(|i| {
             let kind = *src.pick(&['c', 'g', 'h']);
-            let name = format!("{}m{}", dec_string(src, 5), i);
+            // sometimes the name already ends in a unit word or a type suffix word
+            let tail = if src.chance(60) { format!("_{}", src.pick(&["seconds", "bytes", "ratio", "count_per_second", "total", "milliseconds", "bits_per_second"])) } else { String::new() };
+            let name = format!("{}m{}{}", dec_string(src, 5), i, tail);
             let nl = src.below(4);
             let labels = (0..nl)
                 .map(|_| {
@@ -220,7 +222,7 @@ pub fn run(cfg: &RunCfg, replay: Option<&str>) -> i32 {
     if let Some(f) = replay {
         return pr.replay(f);
     }
-    pr.assume("the distinctness precondition (sanitised metric names distinct across kinds and not another family's name plus _bucket/_sum/_count; sanitised label names distinct and not le/quantile) holds by construction: every generated name ends in a letter plus a distinct index character");
+    pr.assume("the distinctness precondition (sanitised metric names distinct across kinds and not another family's name plus _bucket/_sum/_count; sanitised label names distinct and not le/quantile) holds by construction: every generated name contains a letter plus a distinct index character at its end or just before an optional unit-word tail");
     pr.assume("well-formedness is decided by an independent strict parser of the text format 0.0.4 (line grammar, escapes \\\\ \\\" \\n only, Go float syntax, one TYPE per family before its samples, samples named family or family + a suffix its type allows)");
     let r = pr.run_regressions();
     pr.push(r);
